@@ -1,20 +1,28 @@
 import OciModel.Driver.Funcs
+import OciModel.Driver.Scope
+
+structure DState where
+  scopes : OciModel.Driver.Scope.Regs := []
 
 /-- One line in, one line out. The first token names the engine. -/
-def step (line : String) : String :=
+def step (st : DState) (line : String) : DState × String :=
   match (line.trimAscii.toString.splitOn " ") with
-  | ["reset"] => "ok"
-  | "funcs" :: rest => OciModel.Driver.Funcs.drive rest
-  | _ => "bad-engine"
+  | ["reset"] => ({}, "ok")
+  | "funcs" :: rest => (st, OciModel.Driver.Funcs.drive rest)
+  | "scope" :: rest =>
+    let (r, out) := OciModel.Driver.Scope.drive st.scopes rest
+    ({ st with scopes := r }, out)
+  | _ => (st, "bad-engine")
 
-partial def loop (hin hout : IO.FS.Stream) : IO Unit := do
+partial def loop (hin hout : IO.FS.Stream) (st : DState) : IO Unit := do
   let line ← hin.getLine
   if line.isEmpty then return ()
-  hout.putStrLn (step line)
-  loop hin hout
+  let (st', out) := step st line
+  hout.putStrLn out
+  loop hin hout st'
 
 def main : IO Unit := do
   let hin ← IO.getStdin
   let hout ← IO.getStdout
-  loop hin hout
+  loop hin hout {}
   hout.flush
